@@ -16,7 +16,7 @@
    realloc(entries_alloc * sizeof(struct jls_utc_summary_entry_s)) gives 16 bytes per entry,
    i.e. phys = 2 * alloc after the first growth.  A read at an index in [length, phys) returns
    uninitialised heap content, modelled by the parameter `junk` (any value); a read at an
-   index >= phys is outside the heap object: Fault OOB_read.  The current code never reads at
+   index >= phys is outside the heap object: TmFault Tm_OOB_read.  The current code never reads at
    an index >= length (search_total); only the old code did.
 
    Arithmetic: the C computes in binary64.  The model computes the same expressions, in
@@ -24,7 +24,7 @@
    cast (int64_t) = truncation), over Q exactly.  The difference between binary64 and Q
    evaluation is NOT modelled (see TmapProofs.v, section "binary64 gap").
    int64 overflow of the C subtractions/additions and a cast of an out-of-range double to
-   int64 are undefined behaviour in C: Fault Int_overflow.
+   int64 are undefined behaviour in C: TmFault Tm_Int_overflow.
 
    Definitions only; proofs are in TmapProofs.v. *)
 From Coq Require Import ZArith QArith List Bool Arith.
@@ -32,23 +32,23 @@ From JLS Require Import Generated.
 Import ListNotations.
 Local Open Scope Z_scope.
 
-Inductive fault : Set :=
-| OOB_read        (* read outside the heap object (old code only) *)
-| FP_invalid      (* division by zero in double, result NaN/inf converted to int64 (UB; old code only) *)
-| Int_overflow    (* signed 64-bit overflow or out-of-range double -> int64 cast (UB) *)
-| Nonterm.        (* fuel exhausted: never happens (search_total, search_loop_ok) *)
+Inductive tm_fault : Set :=
+| Tm_OOB_read        (* read outside the heap object (old code only) *)
+| Tm_FP_invalid      (* division by zero in double, result NaN/inf converted to int64 (UB; old code only) *)
+| Tm_Int_overflow    (* signed 64-bit overflow or out-of-range double -> int64 cast (UB) *)
+| Tm_Nonterm.        (* fuel exhausted: never happens (search_total, search_loop_ok) *)
 
-Inductive res (A : Type) : Type :=
-| Ok (a : A)
-| Fault (f : fault).
-Arguments Ok {A} a.
-Arguments Fault {A} f.
+Inductive tm_res (A : Type) : Type :=
+| TmOk (a : A)
+| TmFault (f : tm_fault).
+Arguments TmOk {A} a.
+Arguments TmFault {A} f.
 
-(* result of one conversion call: *value written, return code, or a fault *)
+(* result of one conversion call: *value written, return code, or a tm_fault *)
 Inductive qres : Set :=
 | QVal (v : Z)      (* rc = 0, *out = v *)
 | QErr (rc : Z)     (* rc <> 0, *out untouched *)
-| QFault (f : fault).
+| QFault (f : tm_fault).
 
 (* constants come from /repo through Generated.v (tools/gen_constants.py); the
    correspondence harness additionally prints the C values next to the model's
@@ -104,30 +104,30 @@ Definition tmap_add (t : tmap) (s u : Z) : tmap * Z :=
   (mk_tmap (rate t1) (alloc t1) (phys t1) es, rc).
 
 (* ---- memory read x[i] ---- *)
-Definition rd (junk : Z) (ph : nat) (xs : list Z) (i : nat) : res Z :=
-  if (i <? length xs)%nat then Ok (nth i xs 0)
-  else if (i <? ph)%nat then Ok junk
-  else Fault OOB_read.
+Definition rd (junk : Z) (ph : nat) (xs : list Z) (i : nat) : tm_res Z :=
+  if (i <? length xs)%nat then TmOk (nth i xs 0)
+  else if (i <? ph)%nat then TmOk junk
+  else TmFault Tm_OOB_read.
 
 (* ---- interp_i64: the binary search_old, exactly as written ----
      low = 0; high = entries_length;
      while (low < high) { mid = (low + high + 1) / 2;
         if (x0 == x[mid]) { low = mid; break; }
         else if (x0 < x[mid]) high = mid - 1; else if (x0 > x[mid]) low = mid; }      *)
-Fixpoint search_loop (fuel : nat) (junk : Z) (ph : nat) (xs : list Z) (x0 : Z) (low high : nat) : res nat :=
+Fixpoint search_loop (fuel : nat) (junk : Z) (ph : nat) (xs : list Z) (x0 : Z) (low high : nat) : tm_res nat :=
   match fuel with
-  | O => Fault Nonterm
+  | O => TmFault Tm_Nonterm
   | S f =>
       if (low <? high)%nat then
         let mid := ((low + high + 1) / 2)%nat in
         match rd junk ph xs mid with
-        | Fault e => Fault e
-        | Ok xm =>
-            if x0 =? xm then Ok mid
+        | TmFault e => TmFault e
+        | TmOk xm =>
+            if x0 =? xm then TmOk mid
             else if x0 <? xm then search_loop f junk ph xs x0 low (mid - 1)%nat
             else search_loop f junk ph xs x0 mid high
         end
-      else Ok low
+      else TmOk low
   end.
 
 (* if (low >= entries_length - 1) low = entries_length - 2;   (entries_length >= 2 here) *)
@@ -152,11 +152,11 @@ Definition in64 (v : Z) : bool := (- 2 ^ 63 <=? v) && (v <? 2 ^ 63).
         else if (x0 < x[mid]) high = mid - 1; else if (x0 > x[mid]) low = mid; }
      if (low >= entries_length - 1) low = entries_length - 2;
    search_loop is shared with the old code; it is run with physical size 0, i.e. ANY read at
-   an index >= length would be Fault OOB_read (proved never to happen: search_total). ---- *)
-Definition search (xs : list Z) (x0 : Z) : res nat :=
+   an index >= length would be TmFault Tm_OOB_read (proved never to happen: search_total). ---- *)
+Definition search (xs : list Z) (x0 : Z) : tm_res nat :=
   match search_loop (length xs) 0 0%nat xs x0 0%nat (length xs - 1)%nat with
-  | Fault e => Fault e
-  | Ok low => Ok (clamp (length xs) low)
+  | TmFault e => TmFault e
+  | TmOk low => TmOk (clamp (length xs) low)
   end.
 
 (* ---- interp_i64, current code: the interpolation at segment [low, low+1] ----
@@ -167,46 +167,46 @@ Definition interp_k (dk ds dt : Z) : Z :=
   Qround_haz (inject_Z dk * (inject_Z dt / inject_Z ds))%Q.
 
 
-Definition interp_at (xs ys : list Z) (low : nat) (x0 : Z) : res Z :=
+Definition interp_at (xs ys : list Z) (low : nat) (x0 : Z) : tm_res Z :=
   let xl := nth low xs 0 in
   let yl := nth low ys 0 in
   let dk := x0 - xl in
   let ds := nth (S low) xs 0 - xl in
   let dt := nth (S low) ys 0 - yl in
-  if negb (in64 dk && in64 ds && in64 dt) then Fault Int_overflow
-  else if ds =? 0 then Ok yl
+  if negb (in64 dk && in64 ds && in64 dt) then TmFault Tm_Int_overflow
+  else if ds =? 0 then TmOk yl
   else
     let k := interp_k dk ds dt in
-    if negb (in64 k && in64 (yl + k)) then Fault Int_overflow
-    else Ok (yl + k).
+    if negb (in64 k && in64 (yl + k)) then TmFault Tm_Int_overflow
+    else TmOk (yl + k).
 
-Definition interp (xs ys : list Z) (x0 : Z) : res Z :=
+Definition interp (xs ys : list Z) (x0 : Z) : tm_res Z :=
   match search xs x0 with
-  | Fault e => Fault e
-  | Ok low => interp_at xs ys low x0
+  | TmFault e => TmFault e
+  | TmOk low => interp_at xs ys low x0
   end.
 
-Definition qres_of (r : res Z) : qres :=
-  match r with Ok v => QVal v | Fault f => QFault f end.
+Definition qres_of (r : tm_res Z) : qres :=
+  match r with TmOk v => QVal v | TmFault f => QFault f end.
 
 (* ---- single entry: extrapolate with the sample rate ----
      dsample = (double)(sample_id - sample_id[0]); dt = dsample / sample_rate; dt *= JLS_TIME_SECOND;
      *timestamp = utc[0] + (int64_t) dt;                                                   *)
-Definition single_id_to_time (r : Q) (s0 u0 q : Z) : res Z :=
+Definition single_id_to_time (r : Q) (s0 u0 q : Z) : tm_res Z :=
   let d := q - s0 in
-  if negb (in64 d) then Fault Int_overflow
+  if negb (in64 d) then TmFault Tm_Int_overflow
   else
     let k := Qtrunc ((inject_Z d / r) * inject_Z TMAP_TIME_SECOND)%Q in
-    if negb (in64 k && in64 (u0 + k)) then Fault Int_overflow else Ok (u0 + k).
+    if negb (in64 k && in64 (u0 + k)) then TmFault Tm_Int_overflow else TmOk (u0 + k).
 
 (*   dt = (double)(timestamp - utc[0]); dt *= (1.0 / JLS_TIME_SECOND);
      *sample_id = sample_id[0] + (int64_t)(dt * sample_rate);                              *)
-Definition single_time_to_id (r : Q) (s0 u0 q : Z) : res Z :=
+Definition single_time_to_id (r : Q) (s0 u0 q : Z) : tm_res Z :=
   let d := q - u0 in
-  if negb (in64 d) then Fault Int_overflow
+  if negb (in64 d) then TmFault Tm_Int_overflow
   else
     let k := Qtrunc ((inject_Z d * (1 / inject_Z TMAP_TIME_SECOND)) * r)%Q in
-    if negb (in64 k && in64 (s0 + k)) then Fault Int_overflow else Ok (s0 + k).
+    if negb (in64 k && in64 (s0 + k)) then TmFault Tm_Int_overflow else TmOk (s0 + k).
 
 Definition rate_positive (r : Q) : bool := 0 <? Qnum r.
 
@@ -266,36 +266,36 @@ Definition all_in (B : Z) (l : list Z) : Prop := Forall (fun v => - B <= v <= B)
    The code before the two repairs (/repo commits 4ae268d "high = entries_length - 1" and
    768bbbf "if (ds == 0.0) return y[low]"), kept as documentation of the fixed defects:
      - the bisection started with high = entries_length and could read x[entries_length]:
-       uninitialised heap (`junk`) below capacity, outside the heap object (Fault OOB_read)
+       uninitialised heap (`junk`) below capacity, outside the heap object (TmFault Tm_OOB_read)
        with exactly ENTRIES_ALLOC_INIT entries;
      - a zero-width segment (two equal UTC times) divided by zero in double and cast
-       NaN/inf to int64 (Fault FP_invalid).
+       NaN/inf to int64 (TmFault Tm_FP_invalid).
    TmapProofs.v: tmap_old_oob_refuted, tmap_old_oob_iff, tmap_old_equal_times_refuted, and
    tmap_eq_old (the current code returns what the old code returned wherever that was defined).
    ====================================================================================== *)
-Definition search_old (junk : Z) (ph : nat) (xs : list Z) (x0 : Z) : res nat :=
+Definition search_old (junk : Z) (ph : nat) (xs : list Z) (x0 : Z) : tm_res nat :=
   match search_loop (S (length xs)) junk ph xs x0 0%nat (length xs) with
-  | Fault e => Fault e
-  | Ok low => Ok (clamp (length xs) low)
+  | TmFault e => TmFault e
+  | TmOk low => TmOk (clamp (length xs) low)
   end.
 
-Definition interp_at_old (xs ys : list Z) (low : nat) (x0 : Z) : res Z :=
+Definition interp_at_old (xs ys : list Z) (low : nat) (x0 : Z) : tm_res Z :=
   let xl := nth low xs 0 in
   let yl := nth low ys 0 in
   let dk := x0 - xl in
   let ds := nth (S low) xs 0 - xl in
   let dt := nth (S low) ys 0 - yl in
-  if negb (in64 dk && in64 ds && in64 dt) then Fault Int_overflow
-  else if ds =? 0 then Fault FP_invalid
+  if negb (in64 dk && in64 ds && in64 dt) then TmFault Tm_Int_overflow
+  else if ds =? 0 then TmFault Tm_FP_invalid
   else
     let k := interp_k dk ds dt in
-    if negb (in64 k && in64 (yl + k)) then Fault Int_overflow
-    else Ok (yl + k).
+    if negb (in64 k && in64 (yl + k)) then TmFault Tm_Int_overflow
+    else TmOk (yl + k).
 
-Definition interp_old (junk : Z) (ph : nat) (xs ys : list Z) (x0 : Z) : res Z :=
+Definition interp_old (junk : Z) (ph : nat) (xs ys : list Z) (x0 : Z) : tm_res Z :=
   match search_old junk ph xs x0 with
-  | Fault e => Fault e
-  | Ok low => interp_at_old xs ys low x0
+  | TmFault e => TmFault e
+  | TmOk low => interp_at_old xs ys low x0
   end.
 
 (* jls_tmap_sample_id_to_timestamp, old code *)
